@@ -63,6 +63,8 @@ def copy_discipline(F, rep, only_declaration=False, only_generalised=False):
         for o in scratch.obs:
             if o["key"].startswith(("expression|Read|variable-type", "environment|")) or o["key"].endswith("|insertions") or \
                     (o["rule"] == "COPY" and ("|Type::" in o["key"] or "|Constraint::" in o["key"])) or \
+                    (o["rule"] == "COPY" and o["key"].startswith("expression|") and "|is-a-declaration" not in o["key"]
+                     and not o["key"].startswith(("expression|Variant", "expression|Blob|"))) or \
                     o["key"] == "expression|-|result-of-any-expression":
                 real.obs.append(o)
                 real.sites += 1
